@@ -43,7 +43,22 @@ C11_ASSUME = ["gosym: LoadPackage, ParsePackageContents, Validate, ValidateEvolu
               "each explored path is replayed natively on real package directories with no stubs (python + json outputs)",
               "scenario: main imports impa (imports dep) and impb, optional previous version v0; cpp/matlab outputs not configured"]
 
+C04_ASSUME = ["model family: harness c04Model (enum with base, record with optional/array/fixed-vector fields, alias, generic record, protocol with plain/stream-union/map steps); "
+              "primitive names, map key, enum base, vector length and both array dimension lengths symbolic",
+              "encoding/json modelled structurally (json_model.go) calling the interpreted MarshalJSON methods; byte-for-byte validated by native replay on every sampled path"]
+
 PARTS = {
+    "C04": [
+        (G, "gosym_part", dict(name="c04_neutral", entry="internal/zzverif.C04Neutral", args_quick=(1,), args_thorough=(0,),
+                               required_sites=("neutral-edit-keeps-schema", "no-comment-in-schema", "no-computed-field-in-schema", "no-position-in-schema"),
+                               assumptions=C04_ASSUME,
+                               desc="real dsl.Validate + GetProtocolSchemaString on a symbolic model, twice: plain vs decorated with comments on every commentable node, "
+                                    "a computed field, unrelated definitions/protocol, reversed definition order, other file and symbolic line offset: schema text identical")),
+        (G, "gosym_part", dict(name="c04_determines", entry="internal/zzverif.C04Determines", args_quick=(1,), args_thorough=(0,),
+                               required_sites=("wire-edit-changes-schema", "same-model-same-schema"), assumptions=C04_ASSUME,
+                               desc="one wire-affecting edit (symbolic new primitive / key / enum base / vector length / array dimension, or one of 9 structural edits): "
+                                    "schema text differs whenever the edit changes the wire plan, and is identical otherwise")),
+    ],
     "C11": [
         (G, "gosym_part", dict(name="c11_all_or_nothing", entry="internal/cmd.VerifC11", args_quick=(1,), args_thorough=(1,), key_fn=c11_key,
                                extra_quick=("-replay-sample", "200"), extra_thorough=("-replay-sample", "400"),
@@ -124,6 +139,10 @@ NOTES = ("Every claim is bounded: 'holds' means unsat within the stated bound. E
 NOT_APPLICABLE = {}
 
 CLAIMS = {
+    "C04": dict(text="Bounded symbolic execution (gosym) of the real validation pipeline and schema writer (Validate, GetProtocolSchema, removeComments, json.go) on a "
+                     "symbolic model family: wire-neutral decorations leave the schema text unchanged; every single wire-affecting edit changes it (lengths and dimensions as 64-bit symbolic values).",
+                note="One model family (stated in assumptions); the verbatim embedding of the schema string by each backend's emitter and the header writers are checked elsewhere "
+                     "(C15/C01 parts) or not yet; encoding/json is a model validated by native replay."),
     "C11": dict(text="Bounded symbolic execution (gosym) of generateImpl/validatePackage/parse*Namespaces/outputJson/WriteFileIfNeeded over all failure placements "
                      "(main, each import, nested import, previous version, evolution) x output configurations: an error anywhere gives a non-nil error and no write event; "
                      "every path is replayed natively on real package directories.",
